@@ -148,14 +148,15 @@ def f32_literal(rng, signed=True):
 
 
 ALL_ATTR_NAMES = ["METHOD", "URI", "IV", "KEYFORMAT", "KEYFORMATVERSIONS", "BYTERANGE", "ID", "CLASS", "START-DATE", "END-DATE", "DURATION", "PLANNED-DURATION",
-                  "END-ON-NEXT", "TYPE", "GROUP-ID", "LANGUAGE", "NAME", "DEFAULT", "AUTOSELECT", "FORCED", "INSTREAM-ID", "CHANNELS", "BANDWIDTH", "CODECS",
-                  "RESOLUTION", "FRAME-RATE", "AUDIO", "VIDEO", "SUBTITLES", "CLOSED-CAPTIONS", "DATA-ID", "VALUE", "TIME-OFFSET", "PRECISE"]
+                  "SCTE35-CMD", "SCTE35-OUT", "SCTE35-IN", "END-ON-NEXT", "TYPE", "GROUP-ID", "LANGUAGE", "ASSOC-LANGUAGE", "NAME", "DEFAULT", "AUTOSELECT", "FORCED",
+                  "INSTREAM-ID", "CHARACTERISTICS", "CHANNELS", "BANDWIDTH", "AVERAGE-BANDWIDTH", "CODECS", "RESOLUTION", "FRAME-RATE", "HDCP-LEVEL", "AUDIO", "VIDEO",
+                  "SUBTITLES", "CLOSED-CAPTIONS", "DATA-ID", "VALUE", "TIME-OFFSET", "PRECISE"]
 
 
 def unknown_attr(rng, pairs, client_prefix_ok=True):
     """an attribute the tag does not know: an unrelated name, or a NEAR MISS of a known one (a prefix / suffix added, another letter
     case), with an unrelated value or a value that means something for the known one (copied from the list, a keyword)"""
-    known = [k for k, _ in pairs] or ["URI"]
+    known = [k for k, _ in pairs if k in ALL_ATTR_NAMES] or ["URI"]
     r = rng.random()
     if r < 0.35:
         name = rng.choice(["FOO", "Y-NOT-CLIENT", "UNKNOWN-ATTR", "Z9", "BANDWIDTHX", "URI2"])
@@ -165,7 +166,7 @@ def unknown_attr(rng, pairs, client_prefix_ok=True):
         if client_prefix_ok:
             forms += ["X-" + base, "X" + base]
         name = rng.choice(forms)
-        if name in ALL_ATTR_NAMES:
+        while name in ALL_ATTR_NAMES:          # never a name some tag knows: that would be another value, not noise
             name += "Q"
         if not client_prefix_ok and name.upper().startswith("X-"):
             name = "Y" + name          # in a DATERANGE every X-… name is a client attribute, not an unknown one
